@@ -191,6 +191,11 @@ impl ObjectReceiver {
 
         if self.transfer_length.unwrap() == 0 {
             debug_assert!(self.block_writer.is_none());
+            if self.object_writer.is_none() {
+                // The FDT describing this object is not attached yet (OTI received in-band):
+                // nobody can be notified, wait for a packet received after the FDT
+                return Ok(());
+            }
             if self.content_length.unwrap_or_default() != 0 {
                 return Err(FluteError::new(
                     "Transfer length is null whereas Content-Length is not",
